@@ -530,6 +530,11 @@ func callSSA(i *interpreter, caller *frame, callpos token.Pos, fn *ssa.Function,
 			return r
 		}
 		i.callStack = append(i.callStack, fn)
+		if len(i.callStack) > 400 {
+			// unbounded recursion of the code under test: Go dies with "fatal error: stack
+			// overflow", which no recover() catches -- reported like a panic
+			panic(targetPanic{v: iface{t: types.Typ[types.String], v: "stack overflow (call depth > 400: unbounded recursion in " + fn.String() + ")"}})
+		}
 		defer func() {
 			if r := recover(); r != nil {
 				if i.panicStack == nil {
